@@ -4,6 +4,7 @@ package main
 
 import (
 	"fmt"
+	"os"
 	"regexp"
 	"go/constant"
 	"go/token"
@@ -816,6 +817,30 @@ func (x *Exec) enterLoop(fr *Frame, li *loopInfo, entry *State, edgeStates []*St
 	}()
 	wkeys, wcells := x.written, x.cellsW
 	x.written, x.cellsW = savedW, savedC
+	// a base term denotes the same object in every iteration when it is built from symbols that
+	// existed before the loop and reads no heap array that the loop writes
+	heapNameKey := map[string]string{}
+	for k := range x.heapSort {
+		heapNameKey[sanitize("H0_"+k)] = k
+	}
+	for k, t := range entry.heap {
+		if t.Op == "const" {
+			heapNameKey[t.Name] = k
+		}
+	}
+	stableBase := func(b *Term) bool {
+		syms := map[string]bool{}
+		b.symbols(syms, map[*Term]bool{})
+		for sname := range syms {
+			if !declaredBefore[sname] {
+				return false
+			}
+			if hk, isHeap := heapNameKey[sname]; isHeap && wkeys[hk] {
+				return false
+			}
+		}
+		return !termHasBoundVar(b)
+	}
 	// keys written only in objects allocated inside the loop, or in objects named by a term that
 	// already existed before the loop, keep their pre-loop contents everywhere else
 	freshOnly := map[string]bool{}
@@ -826,9 +851,9 @@ func (x *Exec) enterLoop(fr *Frame, li *loopInfo, entry *State, edgeStates []*St
 		for _, b := range x.writeBases[k] {
 			switch {
 			case b != nil && b.Op == "const" && x.freshRefs[b.Name]:
-			case b != nil && b.Op == "const" && declaredBefore[b.Name]:
-				if !seenB[b.Name] {
-					seenB[b.Name] = true
+			case b != nil && stableBase(b):
+				if !seenB[b.String()] {
+					seenB[b.String()] = true
 					preBases[k] = append(preBases[k], b)
 				}
 			default:
@@ -836,6 +861,17 @@ func (x *Exec) enterLoop(fr *Frame, li *loopInfo, entry *State, edgeStates []*St
 			}
 		}
 		freshOnly[k] = ok && len(x.writeBases[k]) > 0
+		if os.Getenv("GVC_DEBUG") != "" {
+			var bs []string
+			for _, b := range x.writeBases[k] {
+				if b == nil {
+					bs = append(bs, "<nil>")
+				} else {
+					bs = append(bs, trunc(b.String(), 80))
+				}
+			}
+			fmt.Fprintf(os.Stderr, "DEBUG loop%d key=%s freshOnly=%v bases=%v\n", li.ordinal, k, freshOnly[k], bs)
+		}
 	}
 	for k, bs := range x.writeBases {
 		// a write to an object allocated in this loop is, for an enclosing loop, also a write to a fresh object
@@ -954,6 +990,32 @@ func (x *Exec) enterLoop(fr *Frame, li *loopInfo, entry *State, edgeStates []*St
 			}
 			st.cells[c] = x.freshValue(fmt.Sprintf("L%d_%s", li.ordinal, c.Name), c.T, st.guard)
 		}
+	}
+	// map iteration: the keys already yielded are keys of the map (holds by construction of Next as
+	// long as the loop does not write the map being ranged over)
+	for _, in := range h.Instrs {
+		nx, ok := in.(*ssa.Next)
+		if !ok {
+			continue
+		}
+		it := fr.iters[nx.Iter]
+		if it == nil || it.kind != "map" {
+			continue
+		}
+		mi := x.mapInfoOf(it.mapT)
+		if wkeys["MP:"+mi.key] {
+			continue
+		}
+		seenV, live := st.cells[it.cell]
+		if !live {
+			continue
+		}
+		bv := make([]*Term, len(mi.kLeaves))
+		for i, l := range mi.kLeaves {
+			bv[i] = BoundVar(fmt.Sprintf("k%d", i), l.Sort)
+		}
+		present := x.mapPresent(st, it.mapT, it.mapR)
+		x.assume(st, Forall(bv, Implies(selectN(seenV.Term, bv), And(Neq(it.mapR, x.null()), selectN(present, bv))), []*Term{selectN(seenV.Term, bv)}))
 	}
 	for _, inv := range invs {
 		x.assume(st, x.evalInvariant(fr, li, inv, st))
